@@ -12,7 +12,10 @@ TRetain ==
   /\ LET e == Trace[l]
          bad == (IF e.crash # "" THEN {"Crash"} ELSE {})
                 \cup (IF ~e.stable THEN {"RetainedStable"} ELSE {})
-                \cup (IF ~e.concat THEN {"UploadComplete"} ELSE {})
+                \cup (IF ~e.concat /\ e.mode \notin {"broken", "brokendata"} THEN {"UploadComplete"} ELSE {})
+                \* an upload that breaks off inside a chunk ends with an error for the handler, never with a clean end of
+                \* stream after a partial chunk (C06 truncation clause, C15 disconnect clause)
+                \cup (IF e.mode \in {"broken", "brokendata"} /\ e.crash = "" /\ e.end # "error" THEN {"BrokenUploadIsError"} ELSE {})
                 \cup (IF e.overlimit THEN {"ChunkLimit"} ELSE {})
                 \* (C18) the stats handler of the mux saw the upload as the handler did: one in-payload event per chunk
                 \* message received, one out-payload event for the reply, one begin and one end
